@@ -532,7 +532,7 @@ def blocked_signature(mode, res):
 def one_config(ctx, p, mode, scripts, rnd, tag, race, cov):
     scenarios = [{"i": i, "script": decorate(s, rnd, mode, p)} for i, s in enumerate(scripts)]
     results = run_harness(ctx, p, mode, scenarios, tag, race=race)
-    items, errors = [], []
+    items, errors, blocked = [], [], []
     for scn in scenarios:
         r = results.get(scn["i"])
         if r is None:
@@ -549,7 +549,12 @@ def one_config(ctx, p, mode, scripts, rnd, tag, race, cov):
         elif r["status"] == "error":
             errors.append((scn, r))
         elif r["status"] == "blocked":
-            handle_blocked(ctx, p, mode, scn, r, race)
+            blocked.append((scn, r))
+    # a scenario in which a WRITER was blocked is what the statement speaks about: look at those first
+    blocked.sort(key=lambda x: not blocked_signature(mode, x[1])[1])
+    nwb = len([1 for _, r in blocked if blocked_signature(mode, r)[1]])
+    for scn, r in blocked[:1]:
+        handle_blocked(ctx, p, mode, scn, r, race, independent=nwb >= 2)
     if errors and not ctx.violations:
         scn, r = errors[0]
         raise vlib.Inconclusive("cesium returned an error the scripts do not expect (%s/%s scenario %d): %s" % (
@@ -616,17 +621,25 @@ def unreproduced(ctx):
         raise vlib.Inconclusive("rejected traces did not reproduce: " + "; ".join(ctx.notes[:3]))
 
 
-def handle_blocked(ctx, p, mode, scn, r, race):
+def handle_blocked(ctx, p, mode, scn, r, race, independent=False):
+    """Reproduction: a second, independent scenario of this run in which a writer was blocked as well,
+    or the same script blocking again in one of several re-executions (the blockage needs a frame in
+    flight at the wrong moment)."""
     sig, is_writer = blocked_signature(mode, r)
-    res = rerun(ctx, p, mode, scn, 3, "reblk", race)
-    again = [x for x in res.values() if x["status"] == "blocked"]
-    if any(x["status"] == "starved" for x in res.values()):
-        raise vlib.Inconclusive("starved while reproducing a blocked call: %s" % r.get("stuck"))
+    again = independent
+    if not again:
+        res = rerun(ctx, p, mode, scn, 10, "reblk", race)
+        again = [x for x in res.values() if x["status"] == "blocked"]
+        if any(x["status"] == "starved" for x in res.values()):
+            raise vlib.Inconclusive("starved while reproducing a blocked call: %s" % r.get("stuck"))
     if not again:
         raise vlib.Inconclusive("blocked call did not reproduce (%s/%s): stuck=%s pending=%s" % (
             p["name"], mode, r.get("stuck"), r.get("pending")))
     if not is_writer and not sig.startswith("C20 %s lost-frame" % mode):
-        raise vlib.Inconclusive("DRIFT %s; stuck=%s pending=%s" % (sig, r.get("stuck"), r.get("pending")))
+        fn = ctx.save_replay({"profile": p, "mode": mode, "script": scn["script"], "events": r.get("events"),
+                              "stuck": r.get("stuck"), "pending": r.get("pending"), "goroutines": r.get("stacks"),
+                              "drift": True}, name="drift-blocked-%s-%d.json" % (ctx.tier, ctx.seed))
+        raise vlib.Inconclusive("DRIFT %s; stuck=%s pending=%s; %s" % (sig, r.get("stuck"), r.get("pending"), fn))
     ctx.report(sig, "%s configuration, cast %s: calls that never returned although the process kept running: %s (watchdog %d s, heartbeat healthy)" % (
         mode, p["name"], ", ".join(r.get("pending", [])) or r.get("stuck"), WATCHDOG_MS // 1000),
         {"profile": p, "mode": mode, "script": scn["script"], "events": r.get("events"), "stuck": r.get("stuck"),
